@@ -54,6 +54,7 @@ type runRecord struct {
 	NonTrivial bool       `json:"nt"`
 	Steps      int        `json:"steps"`
 	Violation  *Violation `json:"violation,omitempty"`
+	Points     []PointAct `json:"points,omitempty"`
 }
 
 type workerOut struct {
@@ -151,7 +152,24 @@ func workerMain(args []string) int {
 		tr := genTrace(*prop, *seed, i, o)
 		ex := newExec(tr, kn)
 		v := ex.Run()
-		rec := runRecord{Run: i, TraceHash: tr.Hash(), Transcript: ex.tx, NonTrivial: ex.st.Mutations > 0, Steps: ex.st.Steps, Violation: v}
+		if pointsAvailable && os.Getenv("VERIF_POINTS") != "" && v == nil && ex.pointN > 0 && tr.Mode == "" {
+			// second pass: the first one counted the statement points this trace
+			// reaches; now place collections at seeded ones, inside operations
+			pr := NewRNG(mix2(mix2(*seed, hashStr("points/"+*prop)), uint64(i)))
+			k := pr.Range(1, 6)
+			for j := 0; j < k; j++ {
+				tr.Points = append(tr.Points, PointAct{Nth: pr.Intn(ex.pointN), Act: "gc2"})
+			}
+			if jf != nil {
+				pj, _ := json.Marshal(tr.Points)
+				fmt.Fprintf(jf, "POINTS %d %s\n", i, pj)
+			}
+			ex = newExec(tr, kn)
+			v = ex.Run()
+			wo.Probes["point_runs"]++
+			wo.Probes["points_reached_total"] += ex.pointN
+		}
+		rec := runRecord{Run: i, TraceHash: tr.Hash(), Transcript: ex.tx, NonTrivial: ex.st.Mutations > 0, Steps: ex.st.Steps, Violation: v, Points: tr.Points}
 		wo.Records = append(wo.Records, rec)
 		addMap(wo.Ops, ex.st.Ops)
 		addMap(wo.Events, ex.st.Events)
